@@ -499,6 +499,12 @@ def run(ctx):
             return F['conn'] and (created or destroyed or on)
         return ex
     nmp = 0
+    for p in mpaths:
+        for a_, v_ in p.decisions:
+            if m_mp(a_) is None:
+                # a decision the scenario table has no column for (the function was rewritten around other tests): what it returns cannot be
+                # compared with the table - undecided, not a violation
+                raise AnalysisError('C14.4: MessagePattern.matches decides on `%s`, which the scenario table does not know' % a_.text[:100])
     for has_arg in (False, True):
         sel = []
         for p in mpaths:
